@@ -34,6 +34,7 @@ def plan(tier, seed):
     cfgs.append(dict(sched="WFQ", table=[[0, 1], [1, 2]], rate=8, flows=[0, 1], sizes=[1, 2], N=n, gaps="G5", order=0, map="swap"))
     cfgs.append(dict(sched="WFQ", table=[[0, 2]], rate=8, flows=[0, 1], sizes=[1, 2], N=n, gaps="G5", order=0, map="one"))
     cfgs.append(dict(sched="WFQ", table=[[0, 1], [1, 2], [2, 1]], rate=8, flows=[0, 1, 2], sizes=[1, 2], N=n, gaps="G3", order=0))
+    cfgs.append(dict(sched="VC", table=[[0, 0], [1, 1]], rate=8, flows=[0, 1], sizes=[1], N=6 if quick else 7, gaps=["S", 1], order=0))
     for tab in ([[0, 1], [1, 1]], [[0, 1], [1, 2]], [[0, 2], [1, 1]], [[0, 0.5], [1, 2]]):
         cfgs.append(dict(sched="VC", table=tab, rate=8, flows=[0, 1], sizes=[1, 2], N=n, gaps="G5", order=0, L=50))
         cfgs.append(dict(sched="VC", table=tab, rate=16, flows=[0, 1], sizes=[1, 2], N=n + 1, gaps="G3", order=1))
